@@ -17,9 +17,10 @@ BIDS = ["b-one", "bücket \"2\""]
 CREATED = [datetime(2020, 1, 2, 3, 4, 5, 678000, tzinfo=timezone.utc), datetime(1999, 12, 31, 23, 59, 59, tzinfo=timezone(timedelta(hours=5, minutes=30)))]
 METAS = [
     dict(type="type-α", client="client 'q'", hostname="host-1", name="Name One", data={"k": [1, {"n": None}], "ü": "x"}),
-    dict(type="t2", client="c2", hostname="h2", name=None, data=None),
+    # texts that look like numbers (integer with leading zeros, exponent form, decimal): they must come back as given
+    dict(type="007", client="1e3", hostname="0042", name=None, data=None),
 ]
-UPDATES = [dict(type_id="new-type"), dict(client="new-client", hostname="new-host"), dict(name="new name"), dict(data={"changed": [True]}), dict(type_id="T", client="C", hostname="H", name="N", data={"all": 1})]
+UPDATES = [dict(type_id="new-type"), dict(client="new-client", hostname="20210304"), dict(name="1.50"), dict(data={"changed": [True]}), dict(type_id="T", client="C", hostname="H", name="N", data={"all": 1})]
 OPS = ["create", "update", "delete", "lookup", "describe", "insert_event", "read_events"]
 
 
@@ -28,6 +29,24 @@ def listing(ds):
     for bid, m in ds.buckets().items():
         out[bid] = dict(id=m["id"], type=m["type"], client=m["client"], hostname=m["hostname"], created=iso8601.parse_date(m["created"]), name=m.get("name"), data=m.get("data"))
     return out
+
+
+def scribble(obj):
+    """mutate a returned / passed structure in place at every depth"""
+    if isinstance(obj, dict):
+        for k in list(obj):
+            if isinstance(obj[k], (dict, list)):
+                scribble(obj[k])
+            else:
+                obj[k] = "scribbled"
+        obj["scribble"] = 1
+    elif isinstance(obj, list):
+        for i, v in enumerate(obj):
+            if isinstance(v, (dict, list)):
+                scribble(v)
+            else:
+                obj[i] = "scribbled"
+        obj.append("scribble")
 
 
 def matches(actual, ref):
@@ -67,14 +86,18 @@ def h_history(x, bk, L):
                     mi = x.choice("meta%d" % step, len(METAS))
                     ci = x.choice("created%d" % step, len(CREATED))
                     m = METAS[mi]
-                    b = ds.create_bucket(bid, m["type"], m["client"], m["hostname"], created=CREATED[ci], name=m["name"], data=deepcopy(m["data"]))
+                    given = deepcopy(m["data"])
+                    b = ds.create_bucket(bid, m["type"], m["client"], m["hostname"], created=CREATED[ci], name=m["name"], data=given)
+                    scribble(given)  # the caller's object is the caller's: changing it later must not reach the store
                     ref[bid] = dict(id=bid, type=m["type"], client=m["client"], hostname=m["hostname"], created=CREATED[ci], name=m["name"], data=deepcopy(m["data"]) or {})
                     refev[bid] = []
                     obl.append(("created-bucket-starts-empty-step%d" % step, b.get(-1) == [] and b.get_eventcount() == 0))
                 elif op == "update":
                     ui = x.choice("upd%d" % step, len(UPDATES))
                     u = UPDATES[ui]
-                    ds.update_bucket(bid, **deepcopy(u))
+                    given = deepcopy(u)
+                    ds.update_bucket(bid, **given)
+                    scribble(given.get("data"))
                     if exists:
                         for k, v in u.items():
                             ref[bid]["type" if k == "type_id" else k] = deepcopy(v)
@@ -89,6 +112,10 @@ def h_history(x, bk, L):
                     got = ds.storage_strategy.get_metadata(bid) if not exists else ds[bid].metadata()
                     if exists:
                         obl.append(("describe-equals-listing-step%d" % step, matches({bid: dict(id=got["id"], type=got["type"], client=got["client"], hostname=got["hostname"], created=iso8601.parse_date(got["created"]), name=got.get("name"), data=got.get("data"))}, {bid: ref[bid]})))
+                        # what was handed out is the caller's: scribbling over it (at every depth) changes nothing stored
+                        scribble(got)
+                        for m_ in ds.buckets().values():
+                            scribble(m_)
                 elif op == "insert_event":
                     if not exists:
                         x.assume(False)  # event writes to missing buckets are other properties' business
@@ -145,7 +172,7 @@ def meta(chk, tier):
     ]
     chk.stubs = ["as C02"]
     chk.assumptions = ["outside the property's quantifier and assumed away: create_bucket on an existing id, updates that supply no field, empty-string fields, data={} updates",
-                       "the value space is small and mostly structural: the solver's contribution is the symbolic event content; the rest is exhaustive bounded exploration of the selectors", "peewee backend not covered by this check yet"]
+                       "the value space is small and mostly structural: the solver's contribution is the symbolic event content; the rest is exhaustive bounded exploration of the selectors", "returned metadata and passed-in data objects are scribbled over at every depth after each describe / create / update"]
 
 
 def main(tier, seed, args):
